@@ -84,10 +84,14 @@ DO_Check(t) ==
     ELSE IF ~DO_CoverOK(ep, s.Nb, s.Nt) THEN "CoverOK"
     ELSE "ok"
 
+T2(t) == [t EXCEPT !.batches = t.batches2, !.len = t.len2, !.scenario = [t.scenario EXCEPT !.tb = t.scenario.tb2]]
 \* which acknowledged deviation (if any) reproduces a rejected observation exactly
+RECURSIVE DevOf(_, _)
 DevOf(t, clause) ==
     LET s == Sc(t) IN
-    IF s.kind = "points" \/ clause # "CoverOK" THEN ""
+    IF s.kind = "points" THEN ""
+    ELSE IF clause = "CoverOK(after the trunk batch size changed)" THEN DevOf(T2(t), "CoverOK")
+    ELSE IF clause # "CoverOK" THEN ""
     ELSE IF s.kind = "shared" /\ SameUpToRenaming(DO_Ep(t), ImplEpoch("shared", s.Nb, s.Nt, s.bb, s.tb, {}))
          THEN "dl_shared_joint_index"
     ELSE IF s.kind = "unique" /\ SameUpToRenaming(DO_Ep(t), ImplEpoch("unique", s.Nb, s.Nt, s.bb, s.tb, {"dl_unique_divisor"}))
@@ -98,11 +102,15 @@ DevOf(t, clause) ==
          THEN "dl_unique_divisor+dl_unique_oversize"
     ELSE ""
 
+\* the second epoch of a per-function loader, after the data set's trunk batch size was changed: judged like a first epoch with that size
+DO_Check2(t) == LET c == DO_Check(t) IN
+                IF c # "ok" \/ ~Has(t, "batches2") THEN c
+                ELSE LET c2 == DO_Check(T2(t)) IN IF c2 = "ok" THEN "ok" ELSE c2 \o "(after the trunk batch size changed)"
 Check(t) == IF Has(t, "driver_error") THEN "driver-error"
             ELSE IF Has(t, "error") THEN "call-failed:" \o (IF Len(t.error) > 1 THEN t.error[2] ELSE t.error[1])
             \* the user's tensors are the user's: building loaders (also two from the same tensors) leaves them unchanged
             ELSE IF Has(t, "user_same") /\ \E i \in DOMAIN t.user_same : ~t.user_same[i] THEN "user-tensors-modified-by-the-loader"
-            ELSE IF Sc(t).kind = "points" THEN PD_Check(t) ELSE DO_Check(t)
+            ELSE IF Sc(t).kind = "points" THEN PD_Check(t) ELSE DO_Check2(t)
 
 Init == tid \in 1..Len(Traces) /\ verdict = Check(Traces[tid])
 Next == UNCHANGED vars
